@@ -488,7 +488,7 @@ func init() {
 					cfg.Quorumless = true
 					cfg.PSilence = 0.07
 				}
-				if r.Bool(0.5) {
+				if r.Bool(0.7) {
 					cfg.ChattyPair = true
 				}
 			}
